@@ -33,8 +33,11 @@ type (
 		srInHead bool
 		mode     mpt.TrieMode
 		mpt      *mpt.Trie
-		verifier VerifierFunc
-		log      *zap.Logger
+		// mptPending is set while a batch computed by AddMPTBatch has not been
+		// applied by UpdateCurrentLocal.
+		mptPending bool
+		verifier   VerifierFunc
+		log        *zap.Logger
 
 		currentLocal    atomic.Value
 		localHeight     atomic.Uint32
@@ -334,6 +337,17 @@ func (s *Module) GC(index uint32, store storage.Store) time.Duration {
 
 // AddMPTBatch updates using provided batch.
 func (s *Module) AddMPTBatch(index uint32, b mpt.Batch, cache *storage.MemCachedStore) (*mpt.Trie, *state.MPTRoot, error) {
+	if s.mptPending {
+		// The previous batch was computed but never applied: the in-memory
+		// nodes and the reference counters cache it shares with s.mpt carry
+		// its changes. Start over from the stored state.
+		if root := s.CurrentLocalStateRoot(); root.Equals(util.Uint256{}) {
+			s.mpt = mpt.NewTrie(nil, s.mode, s.Store)
+		} else {
+			s.mpt = mpt.NewTrie(mpt.NewHashNode(root), s.mode, s.Store)
+		}
+	}
+	s.mptPending = true
 	mpt := *s.mpt
 	mpt.Store = cache
 	if _, err := mpt.PutBatch(b); err != nil {
@@ -351,6 +365,7 @@ func (s *Module) AddMPTBatch(index uint32, b mpt.Batch, cache *storage.MemCached
 // UpdateCurrentLocal updates local caches using provided state root.
 func (s *Module) UpdateCurrentLocal(mpt *mpt.Trie, sr *state.MPTRoot) {
 	s.mpt = mpt
+	s.mptPending = false
 	s.currentLocal.Store(sr.Root)
 	s.localHeight.Store(sr.Index)
 	if s.srInHead {
